@@ -121,7 +121,7 @@ def gen_nopanic(syn, tier):
     acts = Actions(syn)
     pre = [PRE_BASE]
     hs = []
-    lens_real = {"INT": [2, 3, 5, 8], "HEX_INT": [3, 4, 6], "OCT_INT": [3, 4, 6], "BIN_INT": [3, 4, 8], "INDEX": [1, 3, 6],
+    lens_real = {"INT": [2, 3, 5, 8], "HEX_INT": [3, 4, 6], "OCT_INT": [3, 4, 6], "BIN_INT": [3, 4, 8], "INDEX": [1, 3, 6, 20],
                  "FLOAT": [2, 3, 4, 6], "DECIMAL": [2, 3, 4, 6]}
     lens_stub = {"INT": [40, 41], "HEX_INT": [34, 35], "OCT_INT": [46], "BIN_INT": [130], "INDEX": [20, 21], "FLOAT": [], "DECIMAL": [], "STRING": []}
     if tier == "thorough":
@@ -168,7 +168,18 @@ def gen_nopanic(syn, tier):
         {PRE_DRAW}
         vcover!(true, "some admitted text of this length");
         {call}"""
-                hs.append(Harness(f"nopanic_{cls}_len{n}_stubbed", body, unwind=n + 4, stubs=PARSER_STUBS, heavy=True,
+                # native replay of a stubbed harness: the dependency parser is real there, so use the text of this length that
+                # makes it fail for certain (all digits maximal): the stub's `Err` answer is then the real answer
+                top = {"INT": "9", "HEX_INT": "f", "OCT_INT": "7", "BIN_INT": "1", "INDEX": "9"}[cls]
+                pref = {"INT": "i", "HEX_INT": "0x", "OCT_INT": "0o", "BIN_INT": "0b", "INDEX": ""}[cls]
+                fixed = pref + top * (n - len(pref))
+                native = f"""
+        {buf_decl(n)}
+        {PRE_DRAW}
+        let text: &str = "{fixed}";
+        show("text", &text);
+        {call}"""
+                hs.append(Harness(f"nopanic_{cls}_len{n}_stubbed", body, unwind=n + 4, stubs=PARSER_STUBS, heavy=True, native_body=native, abstract=True,
                                   meta={"token": cls, "regex": rx, "length": n, "code": what,
                                         "dependency_parser": "stubbed total (std's integer parser is not executed at this length)"}))
     return "\n".join(pre), hs
